@@ -303,13 +303,13 @@ ModelVsReal(mr, real, hooks) ==
   ELSE FirstDiff(StripLog(SelectSeq(AllLog(mr.calls), LAMBDA x : x[1] = "e" \/ hooks)), real, 1)
 \* a runaway play (log cut at 6000 entries, or thousands of calls): everything derived from the log is quadratic in its
 \* length for TLC, so it is judged from the scalars only: a play that was expected to end did not
-\* (recorded calls = calls that delivered something: a stepped play makes thousands of empty calls, which are not recorded)
-BigPlay(ev) == ev.trunc = 1 \/ Len(ev.calls) > 1500
+\* (ne = number of delivered events, counted by the harness; calls are no measure: a stepped play makes thousands of them)
+BigPlay(ev) == ev.trunc = 1 \/ ("ne" \in DOMAIN ev /\ ev.ne > 3000)
 StepPlayBig(ev) ==
   LET expectedToEnd == ~cfg.loopEn \/ cfg.loopN >= 0
       judged == ~pos.moved /\ "partial" \notin DOMAIN ev /\ expectedToEnd
       f == IF judged THEN {"delivery-count"} \cup Lbl(ev.atend = 1, "not-at-end") ELSE {}
-  IN /\ fails' = AddFails(Tag(IF cfg.loopEn THEN "C09" ELSE "C07", f, ev, ToString(<<"runaway play: recorded calls", Len(ev.calls), "log cut", ev.trunc, "n", cfg.loopN>>)))
+  IN /\ fails' = AddFails(Tag(IF cfg.loopEn THEN "C09" ELSE "C07", f, ev, ToString(<<"runaway play: events", IF "ne" \in DOMAIN ev THEN ev.ne ELSE -1, "log cut", ev.trunc, "n", cfg.loopN>>)))
      /\ pos' = [pos EXCEPT !.moved = TRUE, !.stgt = -1]
      /\ UNCHANGED <<song, cfg, exec, drift>>
      /\ cnt' = [cnt EXCEPT !.steps = @ + 1, !.plays = @ + 1, !.loopPlays = @ + (IF cfg.loopEn THEN 1 ELSE 0)]
